@@ -793,6 +793,22 @@ def rt_cases(prop):
             S('top', [J('r1', outcome='raise'), J('r2', yields=4), J('x1', duration=5), J('x2', duration=5),
                       J('c')], [(2, 0), (3, 0), (4, 0), (4, 1)], window=2),
             S('top', [S('in', [J('x', shutdown_duration=3)], shutdown_timeout=0.125), J('b', duration=2)]),
+            # two candidates examined in one batch, one still blocked, one ready, next to a forever job:
+            # every order in which the set of candidates may be iterated (salts)
+            *[S('top', [J('a'), J('b', duration=3), J('blocked'), J('ready'), J('tick', duration=None, forever=True)],
+                [(2, 0), (2, 1), (3, 0)], salt=str(k)) for k in range(6)],
+            *[S('top', [J('a'), J('b', duration=3), J('k1'), J('k2'), J('k3')],
+                [(2, 0), (2, 1), (3, 0), (4, 0), (4, 1)], salt=str(k), timeout=20) for k in range(4)],
+            # a full window with several jobs queued behind it at the instant of a critical failure / of the timeout /
+            # of the last regular completion (forever jobs queued)
+            *[S('top', [J('crit', critical=True, outcome='raise', duration=2), J('long', duration=9), J('e'),
+                        J('k1', duration=5), J('k2', duration=5), J('k3', duration=5), J('k4', duration=5)],
+                [(3, 2), (4, 2), (5, 2), (6, 2)], window=3, salt=str(k)) for k in range(3)],
+            *[S('top', [J('long', duration=9), J('e'), J('k1', duration=5), J('k2', duration=5), J('k3', duration=5),
+                        J('k4', duration=5)], [(2, 1), (3, 1), (4, 1), (5, 1)], window=2, timeout=3, salt=str(k)) for k in range(3)],
+            *[S('top', [J('a'), J('b', duration=3), J('f1', duration=None, forever=True), J('f2', duration=None, forever=True),
+                        J('f3', duration=None, forever=True), J('f4', duration=None, forever=True)],
+                [(2, 0), (3, 0), (4, 0), (5, 0)], window=2, salt=str(k)) for k in range(3)],
             # a tolerated failure first, a critical one later, along chains of critical / non-critical schedulers
             S('top', [S('n1', [S('n2', [J('t', outcome='raise'), J('x', duration=2, critical=True, outcome='raise')],
                                  critical=True)], critical=True), J('y', duration=5)], critical=True),
@@ -814,6 +830,8 @@ def rt_cases(prop):
                     yield {'kind': 'rt-c10s', 'prop': prop, 'spec': RT.gen_chain(r2)}
                 continue
             sp = RT.gen_tree(r2)
+            if i % 2:
+                sp['salt'] = str(r2.randrange(1000))       # another set iteration order
             if prop == 'C06':
                 sp2, flipped = RT.c06_pair(sp, r2)
                 if flipped:
